@@ -7,6 +7,8 @@
 //! exit 2: malformed replay file
 #![allow(clippy::too_many_arguments)]
 mod oracle_c05;
+#[allow(dead_code)]
+mod oracle_misc;
 mod level_history;
 mod queue_history;
 mod amend_race;
